@@ -511,6 +511,9 @@ class Parser(ExprParser):
             elif self.token.typ == "TYPE_SPECIFIER":
                 node.specifier.append(self.token.value)
                 self.info("type-specifier:", self.token.value)
+                # An identifier which follows is the declarator,
+                # even when it is also the name of a type.
+                found_type = True
                 self.next()
             elif self.token.typ == "TYPE_QUALIFIER":
                 # const volatile
